@@ -44,6 +44,16 @@ CHECKS = [
         "Trusted: vsim/vfs.cc cookie layer, glibc stdio, zlib inflate for the PNG check, the reference encoders/decoders in engines/sim_image.cc. "
         "Wide (>8 bit) foreign samples use host byte order like phosg's own writer. Hostile headers / bit flips are outside C06.",
         "DESIGN.md 4.1", "deterministic simulation with fault injection (simulated disk: torn writes, truncation, EIO, chunking, full disk; independent-decoder oracle)"),
+    chk("C15", "sim-proc",
+        "Seeded search over parent/child schedules: the real run_process, Subprocess (including the child branch up to execvp), communicate, wait, kill and destructor "
+        "run against real kernel pipes and a real forked child, but the child is a scripted helper that performs exactly one non-blocking step per simulator command, and the "
+        "parent's poll/read/write/waitpid/kill/close/gettimeofday are link-time wrapped scheduling points. One seed decides how many child steps are released at every parent "
+        "call, stalls, simulated sleeps and timeouts, EINTR, spurious EAGAIN and clamped transfers; blocking calls are emulated so 'no process can make a step' is a detected "
+        "DEADLOCK. Oracle: bytes and wait status recomputed from the script, payload delivery (count + hash seen by the child), check/timeout semantics, reaping, and the open "
+        "descriptor set before/after. Sampling, not proof.",
+        "Trusted: the real kernel's pipe/wait/signal semantics (deterministic under lock-step; re-checked by the determinism gate), vsim/child.c, the wrappers in engines/sim_proc.cc. "
+        "Assumes the embedding program ignores SIGPIPE. communicate() is not expected to drain stderr.",
+        "DESIGN.md 4.3", "deterministic simulation with fault injection (lock-stepped real child process, wrapped parent system calls as scheduling points, simulated clock)"),
     chk("C16", "sim-par",
         "Seeded search over thread interleavings: the unmodified Tools.hh templates are instantiated against scheduler-controlled std::atomic/std::thread/usleep/now "
         "shims (macro retargeting in the harness TU), a seeded cooperative scheduler decides who runs at every atomic operation, thread start, join, sleep and callback "
@@ -85,6 +95,7 @@ def main():
         },
         "engines": [
             {"name": "sim-image", "path": "engines/sim_image.cc", "serves_properties": ["C06"], "kind_free_text": "deterministic simulation: real Image.cc over a simulated disk (fopencookie), torn writes/truncation/EIO/full disk, independent decoders"},
+            {"name": "sim-proc", "path": "engines/sim_proc.cc", "serves_properties": ["C15"], "kind_free_text": "deterministic simulation: real Process.cc, real pipes and a lock-stepped scripted child (vsim/child.c); parent system calls are scheduling points"},
             {"name": "sim-par", "path": "engines/sim_par.cc", "serves_properties": ["C16"], "kind_free_text": "deterministic simulation: unmodified Tools.hh over scheduler-controlled atomic/thread shims (ucontext fibers), ASan+UBSan build and ThreadSanitizer-fiber build"},
             {"name": "sim-rand", "path": "engines/sim_rand.cc", "serves_properties": ["C20"], "kind_free_text": "deterministic simulation: real Random.cc over a simulated /dev/urandom (scoped clause only)"},
             {"name": "sim-fs", "path": "engines/sim_fs.cc", "serves_properties": ["C14"], "kind_free_text": "deterministic simulation: real Filesystem.cc over a simulated kernel (link-time --wrap + fopencookie), seeded fault injection"},
